@@ -129,13 +129,20 @@ def service_cases(tier, inst):
         kinds = {A.kind_of(s) for s in ms}
         if len(kinds) == 2:
             yield {"streams": ms}
+    # the stored load profiles after MULTI-level utility targeting (two and three levels per side, gliding levels): the profiles
+    # are inputs of the allocation and must come out of it unchanged
+    Ku = 4
+    nu = 2 if tier == "quick" else 3
+    for ms in P.stream_multisets(inst, Ku, nu, cps=(1, 2), dts=(1,), iso=(tier != "quick"), min_n=1):
+        for ui in (3, 6, 7):
+            yield {"streams": ms, "uset": ui, "K": Ku, "inst": list(inst)}
 
 
 def service_run(case, res: Result):
     from OpenPinch.lib.enums import ProblemTableLabel as PT
 
     streams = [tuple(s) for s in case["streams"]]
-    prob = A.problem(streams)
+    prob = A.problem(streams, utilities=P.utility_sets(tuple(case["inst"]), case["K"], "large")[case["uset"]]) if "uset" in case else A.problem(streams)
     out, master = S.run(prob)
     c = S.cascade_for(prob, list(range(len(streams))))
     T0, H0 = c.gcc()
@@ -160,6 +167,7 @@ SUBCHECKS = {
         describe="pinch_analysis_service: the site's Direct Integration table (H_net, H_net_np, load profiles) vs exact cascade + exact pocket-free curve",
         rule="case = multiset of 3 lattice streams with both kinds; non-trivial = >=1 pocket",
         cases=service_cases, run=service_run,
-        bound=lambda t: "3-multisets over K=4, dt=0, no latent" if t == "quick" else "3-multisets over K=5, dt=0, with latent streams",
+        bound=lambda t: ("3-multisets over K=4, dt=0, no latent + multisets <=2 (K=4, dt=d/2) x 3 multi-level utility ladders" if t == "quick"
+                         else "3-multisets over K=5, dt=0, with latent streams + multisets <=3 (K=4, dt=d/2, latent) x 3 multi-level utility ladders"),
     ),
 }
